@@ -92,6 +92,9 @@ func (t *rawTarget) handle(c net.Conn) {
 			n, _ := strconv.Atoi(rest)
 			io.WriteString(c, "HTTP/1.1 103 Early Hints\r\nLink: </style.css>; rel=preload\r\n\r\n")
 			fmt.Fprintf(c, "HTTP/1.1 %s X\r\nContent-Type: text/plain\r\nX-Resp: v1\r\nX-Resp: v2\r\nContent-Length: %d\r\n\r\n%s", st, n, strings.Repeat("b", n))
+		case "trailer":
+			// a complete chunked response whose `X-Resp` value is announced as a trailer and sent after the body
+			io.WriteString(c, "HTTP/1.1 200 OK\r\nContent-Type: text/plain\r\nTrailer: X-Resp\r\nTransfer-Encoding: chunked\r\n\r\n5\r\nhello\r\n0\r\nX-Resp: t1\r\n\r\n")
 		case "close":
 			return
 		case "reset":
@@ -164,7 +167,7 @@ func (l *logCapture) Write(p []byte) (int, error) {
 	return len(p), nil
 }
 
-var fltModes = []string{"ok:200:0", "ok:200:10", "ok:404:5", "ok:500:3", "ok:201:70000", "early:200:4", "early:404:5", "early:503:0", "early:201:300", "close", "reset", "resetmidheaders", "garbage", "midstatus", "midheaders", "afterstatus", "afterheaderline", "silence",
+var fltModes = []string{"ok:200:0", "ok:200:10", "ok:404:5", "ok:500:3", "ok:201:70000", "early:200:4", "early:404:5", "early:503:0", "early:201:300", "close", "trailer", "trailer", "reset", "resetmidheaders", "garbage", "midstatus", "midheaders", "afterstatus", "afterheaderline", "silence",
 	"midbody:10:4", "midbody:70000:100", "chunkpartial", "refuse", "upgrade", "slow:%d"}
 
 func genFaults(rng *mrand.Rand, n int, tier string, w *bufio.Writer) {
